@@ -58,10 +58,35 @@ def row_to_offsets(row, ix, iy, m21, nx, ny):
     return co, stray
 
 
+def spacing_inferable(nx, ny, perm):
+    """generate_derivative_operators infers dx, dy as the smallest non-zero difference between the centres of
+    CONSECUTIVE voxels of the 1-D list (documented assumption: voxels listed column by column).  A numbering in
+    which no two consecutive voxels are neighbours in x (or in y) is outside that assumption."""
+    inv = [None] * (nx * ny)
+    for pos, k in enumerate(perm):
+        inv[k] = (pos // ny, pos % ny)
+    okx = any(abs(inv[k][0] - inv[k + 1][0]) == 1 for k in range(nx * ny - 1))
+    oky = any(abs(inv[k][1] - inv[k + 1][1]) == 1 for k in range(nx * ny - 1))
+    return okx and oky
+
+
+def gen_perm(rng, nx, ny):
+    """1-D numbering of the voxels: the documented column-major order, or a random bijection from which the
+    spacings can still be inferred"""
+    perm = list(range(nx * ny))
+    if rng.random() < 0.3:
+        return perm
+    for _ in range(50):
+        rng.shuffle(perm)
+        if spacing_inferable(nx, ny, perm):
+            return perm
+    return list(range(nx * ny))
+
+
 def gen_grid_params(rng, exact):
     if exact:
-        dx = 2.0 ** rng.randint(-4, 2)
-        dy = 2.0 ** rng.randint(-4, 2)
+        dx = 2.0 ** rng.choice([-20, -9, -4, -3, -2, -1, 0, 1, 2, 7])
+        dy = 2.0 ** rng.choice([-20, -9, -4, -3, -2, -1, 0, 1, 2, 7])
         x0 = dyadic(rng, 1, 8, 4)
         y0 = dyadic(rng, -4, 4, 4)
     else:
@@ -233,7 +258,9 @@ def run(ctx):
         "dyadic stencil cases are compared exactly",
     ]
     ctx.assumptions += [
-        "grid is a full rectangle of equal axis-aligned voxels given through arbitrary 1-D numbering (as the property states)",
+        "grid is a full rectangle of equal axis-aligned voxels; its 1-D numbering is the documented column-major order or any bijection in "
+        "which some two consecutive voxels are neighbours in x and some two in y (the code infers dx, dy from consecutive centres; e.g. the "
+        "column sequence 2,0,3,1 would make it infer 2 dx - outside the documented assumption, not generated)",
         "consistency of the ADMT discretisation is the algebraic identity with div(D grad f) of the formal differential algebra "
         "in Model/C20_Admt.v (no convergence-in-the-limit statement is proved)",
     ]
@@ -256,8 +283,7 @@ def run(ctx):
     for (nx, ny) in sizes:
         for exact in ((True,) if quick and (nx + ny) % 2 else (True, False)):
             x0, y0, dx, dy = gen_grid_params(rng, exact)
-            perm = list(range(nx * ny))
-            rng.shuffle(perm)
+            perm = gen_perm(rng, nx, ny)
             verts, m12, m21 = make_grid(nx, ny, x0, y0, dx, dy, perm)
             ops = admt_utils.generate_derivative_operators(verts, m12, m21)
             for ix in range(nx):
@@ -285,8 +311,7 @@ def run(ctx):
         nx, ny = rng.randint(2, 5 if quick else 8), rng.randint(2, 5 if quick else 8)
         x0, y0, dx, dy = gen_grid_params(rng, quick or gi % 10 != 0)   # non-dyadic dx costs ~1 s per cell in Coq
         x0 += 1.0
-        perm = list(range(nx * ny))
-        rng.shuffle(perm)
+        perm = gen_perm(rng, nx, ny)
         verts, m12, m21 = make_grid(nx, ny, x0, y0, dx, dy, perm)
         ops = admt_utils.generate_derivative_operators(verts, m12, m21)
         n = nx * ny
@@ -383,8 +408,7 @@ def run(ctx):
             search_fails += search_stencil(admt_utils, m["nx"], m["ny"], m["x0"], m["y0"], m["dx"], m["dy"], m["perm"], rng)
         else:
             nx, ny = max(m["nx"], 3), max(m["ny"], 3)
-            perm = list(range(nx * ny))
-            rng.shuffle(perm)
+            perm = gen_perm(rng, nx, ny)
             ext = max(nx * m["dx"], ny * m["dy"])
             cpsi = [0, rng.choice([-3, -2, 2, 3]) + 0.0, rng.choice([-2, -1, 1, 2]) + 0.0] + \
                    [dyadic(rng, -1, 1, 4) / (4 * ext) for _ in range(3)]
